@@ -13,7 +13,7 @@ RULE = ("payloads from the JSON generator (incl. tuples at top level, non-ASCII,
         "ed25519 signer; verdicts for every threshold 1..n+1 under full and partial authorization; post-signing edits at random JSON paths. "
         "non-trivial = >= 2 signers; distinct by (payload, signer order)")
 
-THEOREMS = ["sign_ok", "sign_idempotent", "sign_commute", "own_entry_counts", "threshold_boundary", "edit_invalidates_or_forgery", "wrap_sign_verify", "concurrent_signers", "concurrent_eq_sequential", "copying_signers_lose_entry"]
+THEOREMS = ["sign_ok", "sign_idempotent", "sign_commute", "own_entry_counts", "threshold_boundary", "edit_invalidates_or_forgery", "wrap_sign_verify", "concurrent_signers", "concurrent_eq_sequential", "copying_signers_lose_entry", "inPlace_step_frame"]
 
 
 def run(ck: Check) -> None:
